@@ -11,7 +11,7 @@ use serde_json::{json, Value};
 pub struct AProfile {
     pub owner: &'static str,
     pub own: Vec<&'static str>,
-    pub w: [u32; 10],
+    pub w: [u32; 13],
     pub ops: (u64, u64),
     pub nontrivial_any: Vec<&'static str>,
     pub required: Vec<&'static str>,
@@ -22,15 +22,24 @@ pub fn profile(check: &str) -> AProfile {
         "C05" => AProfile {
             owner: "C05",
             own: vec!["C05:"],
-            w: [16, 18, 8, 8, 2, 12, 5, 8, 7, 2],
+            w: [16, 18, 8, 8, 2, 12, 5, 8, 7, 2, 0, 0, 0],
             ops: (15, 70),
             nontrivial_any: vec!["restart"],
             required: vec!["restart", "server_assigned_id", "entity_deleted", "rename_by_name", "delete_more_partitions_than_exist"],
         },
+        "C10" => AProfile {
+            owner: "C10",
+            own: vec!["C10:"],
+            w: [1, 0, 0, 0, 0, 30, 8, 0, 5, 1, 38, 8, 9],
+            ops: (30, 150),
+            nontrivial_any: vec!["password_changed", "token_login_expired", "token_login_deleted-or-owner-deleted", "user_deleted"],
+            required: vec!["password_changed", "login_attempt_previous", "login_attempt_wrong", "login_attempt_other-users", "token_login_expired", "token_login_deleted-or-owner-deleted",
+                "token_login_owner-inactive", "token_login_alive", "logout_checked", "http_logout_checked", "restart", "secret_scan_files", "non_root_token_created", "token_cleaner_pass"],
+        },
         _ => AProfile {
             owner: "C06",
             own: vec!["C06:"],
-            w: [14, 18, 8, 10, 16, 10, 4, 8, 0, 5],
+            w: [14, 18, 8, 10, 16, 10, 4, 8, 0, 5, 0, 0, 0],
             ops: (20, 120),
             nontrivial_any: vec!["refused_command", "entity_deleted", "rename_by_name"],
             required: vec!["refused_command", "entity_deleted", "rename_by_name", "rename_by_id", "deleted_with_memberships", "server_assigned_id"],
@@ -54,7 +63,11 @@ pub enum AOutcome {
 
 pub async fn run_history(prof: &AProfile, hseed: u64, cache: CacheMode) -> (AdminWorld, AOutcome) {
     let mut rng = Rng::new(hseed);
-    let cfg = admin_cfg(&mut rng);
+    let mut cfg = admin_cfg(&mut rng);
+    if prof.owner == "C10" {
+        cfg.http = true;
+        cfg.encryption = rng.chance(1, 4);
+    }
     let dir = scratch_root().join(format!("a{:016x}", hseed));
     let mut w = AdminWorld::new(hseed, cfg, cache, dir);
     let nops = rng.range(prof.ops.0, prof.ops.1);
@@ -68,6 +81,11 @@ pub async fn run_history(prof: &AProfile, hseed: u64, cache: CacheMode) -> (Admi
         w.exec(AOp::Dump, false).await?;
         if prof.owner == "C05" {
             w.exec(AOp::Restart, false).await?;
+        }
+        if prof.owner == "C10" {
+            w.exec(AOp::ScanSecrets, false).await?;
+            w.exec(AOp::Restart, false).await?;
+            w.exec(AOp::ScanSecrets, false).await?;
         }
         Ok(())
     }
